@@ -124,6 +124,7 @@ type kvEnt struct {
 	isNum      bool
 	ttl        bool
 	lo, hi     time.Time // earliest / latest permitted end of the key
+	dlo, dhi   time.Time // where the deadline of the key's hold can be
 	ttlUnknown bool      // INCR/APPEND on a key with a time-to-live: whether it still has one is not judged
 	foreign    bool      // created by SETNX (held under a generated LockId, not under the key's own)
 }
@@ -254,23 +255,27 @@ func (lr *kvLaneRun) run() {
 			if e != nil {
 				old = *e
 			}
-			ne.ttl, ne.lo, ne.hi = true, t0.Add(d), t1.Add(d+2500*time.Millisecond)
+			// dlo..dhi: where the hold's deadline can be; the key ends between dlo and dhi plus the
+			// lateness C06 allows (2 s, or 10 s after an update that shortened the deadline)
+			ne.ttl, ne.dlo, ne.dhi = true, t0.Add(d), t1.Add(d)
+			late := 2500 * time.Millisecond
 			if e != nil {
 				e := &old
-				// the key existed: its hold's terms were updated, and C06 allows a shortened deadline to
-				// be honoured up to 10 s late
-				ne.hi = t1.Add(d + 10500*time.Millisecond)
+				// the key existed: its hold's terms were updated
+				late = 10500 * time.Millisecond
 				if e.ttl {
-					// C06: an update that moves the deadline by at most one unit may be ignored
-					if diff := ne.lo.Sub(e.lo); diff <= 2500*time.Millisecond && diff >= -2500*time.Millisecond {
-						if e.lo.Before(ne.lo) {
-							ne.lo = e.lo
-						}
-						if e.hi.After(ne.hi) {
-							ne.hi = e.hi
-						}
+					// C06: an update that moves the deadline by at most one unit may be ignored, so every
+					// deadline the hold may have had within a unit (plus rounding) of the new one may
+					// still be in force
+					const u = 2500 * time.Millisecond
+					if klo, khi := maxTime(e.dlo, ne.dlo.Add(-u)), minTime(e.dhi, ne.dhi.Add(u)); !khi.Before(klo) {
+						ne.dlo, ne.dhi = minTime(ne.dlo, klo), maxTime(ne.dhi, khi)
 					}
 				}
+			}
+			ne.lo, ne.hi = ne.dlo, ne.dhi.Add(late)
+			if e != nil && old.ttl && old.hi.After(ne.hi) && !old.dhi.Before(ne.dlo.Add(-2500*time.Millisecond)) {
+				ne.hi = old.hi
 			}
 		}
 		switch cmd {
@@ -457,7 +462,7 @@ func kvDesc(e *kvEnt) string {
 		s = "number " + s
 	}
 	if e.ttl {
-		s += " with a time-to-live"
+		s += fmt.Sprintf(" with a time-to-live (ends between %s and %s)", e.lo.Format("04:05.000"), e.hi.Format("04:05.000"))
 	}
 	if e.foreign {
 		s += " (created by SETNX)"
@@ -521,4 +526,18 @@ func init() {
 		Kind   string
 		Weight int
 	}{"textkv", 6})
+}
+
+func minTime(a, b time.Time) time.Time {
+	if a.Before(b) {
+		return a
+	}
+	return b
+}
+
+func maxTime(a, b time.Time) time.Time {
+	if a.After(b) {
+		return a
+	}
+	return b
 }
